@@ -205,12 +205,25 @@ class RemoveUnusedVariables(VisitorBasedCodemodCommand, NameResolutionMixin):
             #        return node.with_changes(elements = new_elements)
             #    return None
             case cst.Name():
-                if self.find_accesses(node):
+                if self._is_read(node):
                     return node
                 else:
                     return None
             case _:
                 return node
+
+    def _is_read(self, node: cst.Name) -> bool:
+        """
+        Is the variable assigned here read anywhere? Reads made from nested scopes
+        (inner functions, lambdas, comprehensions) count, and a name declared
+        `global` / `nonlocal` belongs to another scope: it is never ours to remove.
+        """
+        if not (scope := self.get_metadata(ScopeProvider, node, None)):
+            return True
+        assignments = scope[node.value]
+        if any(assignment.scope is not scope for assignment in assignments):
+            return True
+        return any(assignment.references for assignment in assignments)
 
     def leave_Assign(
         self, original_node: cst.Assign, updated_node: cst.Assign
